@@ -58,9 +58,16 @@ class C04(CodecBase):
 
     def strategy(self):
         base = super().strategy()
-        return st.tuples(base, st.sampled_from(['none', 'none', 'variant', 'chk', 'unknown', 'unknown', 'alias', 'misplaced', 'misplaced', 'dup',
-                                                'missing', 'grpstart']), st.integers(0, 2 ** 32 - 1)).map(
-            lambda t: dict(t[0], dev=t[1], r=t[2]))
+        general = st.tuples(base, st.sampled_from(['none', 'none', 'variant', 'chk', 'unknown', 'unknown', 'alias', 'misplaced', 'misplaced', 'dup',
+                                                   'missing', 'grpstart']), st.integers(0, 2 ** 32 - 1))
+
+        # group deviations need messages with populated groups of several elements: message types that have groups, dense sections
+        def grouped(name):
+            sch = self.schemas[name]
+            gtypes = [t for t in sch.types() if any(tr.grp for tr in sch.traits(t).list)]
+            return fixref.st_message(sch, mtypes=gtypes, dense=True, max_elems=3, unpaired_length=self.unpaired_length).map(lambda spec: {'schema': name, 'spec': spec})
+        groups = st.tuples(st.sampled_from(SCHEMAS).flatmap(grouped), st.sampled_from(['grpstart', 'grpstart', 'missing', 'dup', 'none']), st.integers(0, 2 ** 32 - 1))
+        return st.one_of(general, general, general, groups).map(lambda t: dict(t[0], dev=t[1], r=t[2]))
 
     def run(self, case, ex):
         sch = self.schemas[case['schema']]
@@ -203,7 +210,37 @@ class C04(CodecBase):
                 if e['elem_start'] and i > 0 and ents[i - 1]['grp'] and ents[i - 1]['depth'] == e['depth'] - 1:
                     if i + 1 < len(ents) and ents[i + 1]['depth'] == e['depth'] and not ents[i + 1]['elem_start'] and not e['grp']:
                         cands.append(i)
-            if not cands:
+            # second and later elements: the field now leading the element must also occur in the previous element, so that it cannot be read as a
+            # continuation of that element (which would be a count mismatch, a deviation the statement does not list)
+            later = []
+            for i, e in enumerate(ents):
+                d = e['depth']
+                if not (e['elem_start'] and d > 0 and not e['grp'] and i + 1 < len(ents) and ents[i + 1]['depth'] == d and not ents[i + 1]['elem_start'] and not ents[i + 1]['grp']):
+                    continue
+                j, prev_tags, found = i - 1, set(), False
+                while j >= 0 and ents[j]['depth'] >= d:
+                    if ents[j]['depth'] == d:
+                        prev_tags.add(ents[j]['tag'])
+                        if ents[j]['elem_start']:
+                            found = True
+                            break
+                    j -= 1
+                if found and ents[i + 1]['tag'] in prev_tags:
+                    later.append(i)
+            if later and (not cands or rnd.random() < 0.6):
+                i = rnd.choice(later)
+                if rnd.random() < 0.5:
+                    e = ents.pop(i)
+                    how = 'lost its first field'
+                else:
+                    ents[i], ents[i + 1] = ents[i + 1], ents[i]
+                    e = ents[i + 1]
+                    how = 'has its first field in second place'
+                conforming = False
+                nontrivial = True
+                info_cls += ['in_group', 'later_element']
+                desc = 'a second or later group element %s %d: it starts with %d' % (how, e['tag'], ents[i]['tag'])
+            elif not cands:
                 dev = 'none'
             else:
                 i = rnd.choice(cands)
@@ -246,7 +283,7 @@ def subsequence(small, big):
 class C05(CodecBase):
     id = 'C05'
     examples = 5000
-    rule = ('A conforming message (as C01, reference-encoded) with 1-4 unknown tag=value tokens (tags not in the schema, printable values) inserted '
+    rule = ('A conforming message (as C01, reference-encoded) with 1-24 unknown tag=value tokens (tags not in the schema, printable values of 1-300 bytes; scattered or as one consecutive run) inserted '
             'at generated token boundaries of header, body, trailer and group elements; decoded with permissive mode on. Oracle: accepted; every '
             'known field decodes to the generated value (== strict decode of the message without the unknown tokens); re-encoding is well-framed '
             '(8/9/35 first, BodyLength, CheckSum), its token multiset is exactly known tokens + unknown tokens (each unknown token byte-identical, '
@@ -260,7 +297,9 @@ class C05(CodecBase):
 
     def strategy(self):
         base = super().strategy()
-        return st.tuples(base, st.integers(1, 4), st.integers(0, 2 ** 32 - 1)).map(lambda t: dict(t[0], n=t[1], r=t[2]))
+        # 1-4 scattered tokens mostly; also up to 24 tokens, scattered or as one consecutive run (a long run of foreign fields in front of known ones)
+        n = st.one_of(st.integers(1, 4), st.integers(1, 4), st.integers(5, 24))
+        return st.tuples(base, n, st.integers(0, 2 ** 32 - 1), st.sampled_from([False, False, True])).map(lambda t: dict(t[0], n=t[1], r=t[2], run=t[3]))
 
     # classes excluded by construction (open known findings), see known_findings.json
     exclude_in_group = False
@@ -276,8 +315,12 @@ class C05(CodecBase):
         cls = ['schema:' + case['schema']]
         nontrivial = False
         excluded = []
+        run_pos = None
         for _ in range(case['n']):
             pos = rnd.randint(0, len(ents))
+            if case.get('run'):
+                # consecutive run: every token goes in front of the same known field
+                pos = run_pos = (pos if run_pos is None else run_pos)
             nxt = ents[pos] if pos < len(ents) else None
             prv = ents[pos - 1] if pos > 0 else None
             in_group = nxt is not None and nxt.get('depth', 0) > 0 and not (nxt.get('elem_start') and nxt['depth'] == 1 and False)
@@ -286,10 +329,11 @@ class C05(CodecBase):
                 excluded.append('unknown_inside_group')
                 continue
             tok = {'sec': '?', 'depth': nxt.get('depth', 0) if nxt else 0, 'tag': rnd.choice(utags),
-                   'text': rnd.choice(['x', 'blah', '1', 'A=B', 'unknown value', '10=000']), 'unk': True}
+                   'text': rnd.choice(['x', 'blah', '1', 'A=B', 'unknown value', '10=000', 'v' * rnd.randint(1, 300)]), 'unk': True}
             boundary = prv is None or nxt is None or prv.get('sec') != nxt.get('sec') or prv.get('unk') or nxt.get('unk')
             if in_group: cls.append('in_group')
             if not boundary: cls.append('mid_section')
+            if case['n'] >= 9: cls.append('nine_or_more_unknown' + ('_consecutive' if case.get('run') else ''))
             nontrivial = nontrivial or in_group or not boundary
             ents.insert(pos, tok)
             unk.append((tok['tag'], tok['text']))
